@@ -1,0 +1,120 @@
+//go:build verif
+
+package bcl
+
+// Read-only windows onto package internals for the verification harness
+// in /verif.  Built only with -tags verif; nothing here is used by the library.
+
+// VerifToken is a lexer token as the parser receives it.
+type VerifToken struct {
+	Typ     int
+	TypName string
+	Val     string
+	Err     string
+	Pos     int
+}
+
+// VerifLex runs the lexer alone over the given chunks
+// and returns all tokens it emits, plus the line table it built.
+func VerifLex(chunks []string) (toks []VerifToken, lfs []int) {
+	c := make(chan string, len(chunks))
+	for _, s := range chunks {
+		c <- s
+	}
+	close(c)
+
+	lc := newLineCalc()
+	l := newLexer(c, lc.add)
+	for {
+		t, ok := l.nextToken()
+		if !ok {
+			break
+		}
+		vt := VerifToken{Typ: int(t.typ), TypName: t.typ.String(), Val: t.val, Pos: t.pos}
+		if t.err != nil {
+			vt.Err = t.err.Error()
+		}
+		toks = append(toks, vt)
+	}
+	return toks, append([]int(nil), lc.lfs...)
+}
+
+// VerifParseChunks is Parse with the input delivered to the lexer
+// in the given chunks, without the reader goroutine of ParseFile.
+func VerifParseChunks(chunks []string, name string, opts ...Option) (*Prog, error) {
+	c := make(chan string, len(chunks))
+	for _, s := range chunks {
+		c <- s
+	}
+	close(c)
+	return parseWithOpts(c, name, opts)
+}
+
+// VerifParts returns the parts of a program that Dump would write.
+func VerifParts(p *Prog) (name string, code []byte, consts []any, positions, lfs []int) {
+	name = p.name
+	code = append([]byte(nil), p.code...)
+	for _, v := range p.constants {
+		consts = append(consts, v)
+	}
+	positions = append([]int(nil), p.positions...)
+	if p.linePos != nil {
+		lfs = append([]int(nil), p.linePos.lfs...)
+	}
+	return
+}
+
+// VerifNewProg assembles a program from parts, as Load would.
+func VerifNewProg(name string, code []byte, consts []any, positions, lfs []int, opts ...Option) *Prog {
+	cf := makeConfig(opts)
+	p := newProg(name, writers{cf.output, cf.logw})
+	p.code = code
+	for _, v := range consts {
+		p.constants = append(p.constants, v)
+	}
+	p.positions = positions
+	p.linePos = &lineCalc{lfs: lfs}
+	return p
+}
+
+// VerifLineCol is lineCalc.lineColAt over a given line table.
+func VerifLineCol(lfs []int, pos int) (int, int) {
+	lc := &lineCalc{lfs: lfs}
+	return lc.lineColAt(pos)
+}
+
+// VerifLineCalcAdd is lineCalc.add applied to successive (chunk, prefix) pairs.
+func VerifLineCalcAdd(chunks []string, prefixes []int) []int {
+	lc := newLineCalc()
+	for i, s := range chunks {
+		lc.add(s, prefixes[i])
+	}
+	return append([]int(nil), lc.lfs...)
+}
+
+func VerifUvarintEnc(x uint64) []byte {
+	var b [9]byte
+	n := uvarintToBytes(b[:], x)
+	return append([]byte(nil), b[:n]...)
+}
+
+func VerifUvarintDec(p []byte) (uint64, int) { return uvarintFromBytes(p) }
+
+func VerifI64ToU64(x int64) uint64 { return i64ToU64(x) }
+func VerifU64ToI64(x uint64) int64 { return u64ToI64(x) }
+
+func VerifValueEnc(v any) []byte {
+	n := 16
+	if s, ok := v.(string); ok {
+		n += len(s)
+	}
+	b := make([]byte, n)
+	k := valueToBytes(b, v)
+	return b[:k]
+}
+
+func VerifValueDec(p []byte) (any, int) { return valueFromBytes(p) }
+
+// VerifSnake and VerifUnsnakeEq expose the name matching rule of Bind.
+func VerifSnake(s string) string           { return snake(s) }
+func VerifUnsnakeEq(orig, key string) bool { return unsnakeEq(orig, key) }
